@@ -9,7 +9,7 @@
    stated in full and refuted before, and are proved at full strength now (the old witnesses stay as
    regression Examples and in corpus/C13.json). *)
 From Coq Require Import String Permutation Sorting.Sorted.
-From PDV Require Import lib.Base lib.C12_Order gen.Gen_C13 model.C13_Rules proof.C13_RulesProof proof.C13_UpdateProof proof.C13_HistoryProof model.C13_Paged proof.C13_PagedProof proof.C13_Skel.
+From PDV Require Import lib.Base lib.C12_Order gen.Gen_C13 model.C13_Rules proof.C13_RulesProof proof.C13_UpdateProof proof.C13_HistoryProof model.C13_Paged proof.C13_PagedProof proof.C13_LockProof proof.C13_Skel.
 Local Open Scope list_scope.
 
 (* ---------- Part 1: the key-range index ---------- *)
@@ -168,6 +168,23 @@ Theorem C13_load_by_prefix_all_with_prefix :
     load_range_by_prefix (q ++ [b]) keys = Some (filter (is_prefix (q ++ [b])) keys).
 Proof. exact load_by_prefix_all_with_prefix. Qed.
 
+(* ---------- Part 4: concurrency ---------- *)
+(* every public method of RuleManager is one section under m's mutex (exclusive for Initialize, the updates and
+   SetKeyType; shared and assignment-free for the readers); what runs before the lock only validates the
+   arguments; the helpers never touch the mutex.  Overlapping calls are therefore executions of the same
+   calls' locked sections in some order, i.e. the histories of `step` quantified over above. *)
+Theorem C13_updates_are_one_locked_section :
+  forallb one_locked_section
+    [skel_Initialize; skel_SetRule; skel_DeleteRule; skel_SetRules; skel_Batch; skel_SetRuleGroup; skel_DeleteRuleGroup;
+     skel_SetAllGroupBundles; skel_SetGroupBundle; skel_DeleteGroupBundle; skel_SetKeyType] = true.
+Proof. exact updates_are_one_locked_section. Qed.
+Theorem C13_readers_are_one_locked_section :
+  forallb one_locked_section
+    [skel_GetRule; skel_GetSplitKeys; skel_GetAllRules; skel_GetRulesByGroup; skel_GetRulesByKey;
+     skel_GetRulesForApplyRegion; skel_GetRuleGroup; skel_GetRuleGroups; skel_GetAllGroupBundles; skel_GetGroupBundle;
+     skel_IsInitialized] = true.
+Proof. exact readers_are_one_locked_section. Qed.
+
 (* non-vacuity: nested, adjacent and unbounded ranges, an overriding group; five segments *)
 Example C13_nonvacuous :
   let g0 := Some (default_group [112;100]%N) in let ga := Some (Group [97]%N 1 true) in
@@ -199,4 +216,6 @@ Print Assumptions C13_storage_mirrors_served.
 Print Assumptions C13_accepted_update_reload_equal.
 Print Assumptions C13_retry_converges.
 Print Assumptions C13_paged_load_complete.
+Print Assumptions C13_updates_are_one_locked_section.
+Print Assumptions C13_readers_are_one_locked_section.
 Print Assumptions C13_load_by_prefix_all_with_prefix.
